@@ -180,7 +180,7 @@ theorem rebuild_scalar (spawn : Nat → Nat → Nat) (k : Kind) (g : Gen) (r : N
   simp [rebuild, hd]
 
 /-- what stays fixed along a history -/
-theorem step_fixed (spawn : Nat → Nat → Nat) (k : Kind) (w : World) (hd : w.node.params.deps = []) (op : Op) :
+theorem step_fixed (spawn : Nat → Nat → Nat) (k : Kind) (w : World) (_hd : w.node.params.deps = []) (op : Op) :
     (step spawn k w op).node = w.node ∧ (step spawn k w op).born = w.born := by
   cases op <;> simp [Hist.step, reconstruct_reduce]
 
@@ -231,5 +231,847 @@ theorem run_invariant (spawn : Nat → Nat → Nat) (k : Kind) (ops : List Op) :
 theorem draw_length (spawn : Nat → Nat → Nat) (k : Kind) (g : Gen) (n : Nat) :
     (draw spawn k g n).1.length = n := by
   cases k <;> simp [draw]
+
+/-! ## integer arithmetic used by the assignment lemmas -/
+
+theorem pyDiv_pos (a c : Int) (hc : 0 < c) : pyDiv a c = a / c := by simp [pyDiv, hc]
+theorem pyMod_pos (a c : Int) (hc : 0 < c) : pyMod a c = a % c := by simp [pyMod, hc]
+
+/-- Python's `q, r = divmod(D, c); if r: q += 1`. -/
+def ceilq (D c : Int) : Int := if D % c ≠ 0 then D / c + 1 else D / c
+
+theorem ceilq_spec (D c : Int) (hc : 0 < c) (i : Int) : i < ceilq D c ↔ i * c < D := by
+  have hdm := Int.emod_def D c
+  have hr0 := Int.emod_nonneg D (by omega : c ≠ 0)
+  have hr1 := Int.emod_lt_of_pos D hc
+  have key : i ≤ D / c ↔ i * c ≤ D := Int.le_ediv_iff_mul_le hc
+  have key1 : i + 1 ≤ D / c ↔ (i + 1) * c ≤ D := Int.le_ediv_iff_mul_le hc
+  rw [Int.add_mul] at key1
+  unfold ceilq
+  split
+  · rename_i hr
+    constructor
+    · intro h
+      have : i * c ≤ D := key.mp (by omega)
+      rcases Int.lt_or_eq_of_le this with h1 | h1
+      · exact h1
+      · exfalso; apply hr; rw [← h1]; exact Int.mul_emod_left i c
+    · intro h; have := key.mpr (by omega); omega
+  · rename_i hr
+    have hr' : D % c = 0 := by omega
+    constructor
+    · intro h; have := key1.mp (by omega); omega
+    · intro h
+      -- D = c * (D / c)
+      rw [hr'] at hdm
+      by_cases hq : i < D / c
+      · exact hq
+      · exfalso
+        have : D / c ≤ i := by omega
+        have := Int.mul_le_mul_of_nonneg_right this (Int.le_of_lt hc)
+        rw [Int.mul_comm (D / c) c] at this
+        omega
+
+theorem int_eq_of_lt_iff {x y : Int} (h : ∀ i : Int, i < x ↔ i < y) : x = y := by
+  have h1 := h (x - 1); have h2 := h (y - 1); have h3 := h x; have h4 := h y
+  omega
+
+/-! ## ranks in ranges -/
+
+theorem getElem_rangeList (a b c : Int) (i : Nat) (h : i < (rangeList a b c).length) :
+    (rangeList a b c)[i] = a + (i : Int) * c := by
+  simp [rangeList]
+
+/-- rank of `p` in `range(a, b, c)` (any sign of `c ≠ 0`). -/
+theorem findIdx_rangeList_some (a b c p : Int) (hc : c ≠ 0) (k : Nat)
+    (hk : k < rangeLen a b c) (hp : p = a + (k : Int) * c) :
+    (rangeList a b c).findIdx? (· == p) = some k := by
+  rw [List.findIdx?_eq_some_iff_getElem]
+  refine ⟨by simpa using hk, ?_, ?_⟩
+  · simp [getElem_rangeList, hp]
+  · intro j hj
+    simp only [getElem_rangeList, hp, beq_iff_eq]
+    intro e
+    have e2 : ((j : Int) - k) * c = 0 := by rw [Int.sub_mul]; omega
+    rcases Int.mul_eq_zero.mp e2 with h | h
+    · omega
+    · exact hc h
+
+theorem findIdx_rangeList_none (a b c p : Int)
+    (h : ∀ k : Nat, k < rangeLen a b c → p ≠ a + (k : Int) * c) :
+    (rangeList a b c).findIdx? (· == p) = none := by
+  rw [List.findIdx?_eq_none_iff]
+  intro x hx
+  rw [mem_rangeList] at hx
+  obtain ⟨i, hi, rfl⟩ := hx
+  simp only [beq_eq_false_iff_ne, ne_eq]
+  intro e
+  exact h i hi e.symm
+
+/-! ## `parse_assignment_indices` -/
+theorem normalizeSlice_stp (s : PySlice) (n : Int) : (normalizeSlice s n).stp = s.stp := by
+  unfold normalizeSlice
+  simp only []
+  split
+  · exact stp_mk_ite _ _ _
+  · split
+    · split
+      · simp [stp]
+      · split <;> simp [stp]
+    · rfl
+
+theorem normalizeSlice_istart_nonneg (s : PySlice) (n : Int) (hn : 0 < n) (hc : s.stp < 0) :
+    0 ≤ (normalizeSlice s n).istart n := by
+  have h1 : ¬ s.stp > 0 := by omega
+  have hb := istart_neg_bounds s n (by omega) hc
+  unfold normalizeSlice
+  simp only [h1, hc, if_true, if_false]
+  generalize s.istart n = a at hb ⊢
+  generalize s.istop n = b
+  generalize hcc : s.stp = c at hc
+  split
+  · simp [istart, stp, hc]; omega
+  · split
+    · simp [istart, stp, adjust, hc]; omega
+    · simp only [istart, stp, Option.getD_some, hc, decide_true]
+      rw [adjust_true_id _ _ (by omega) (by omega)]; omega
+
+theorem rangeList_nil_pos (a b c : Int) (hc : 0 < c) (h : b ≤ a) : rangeList a b c = [] := by
+  unfold rangeList; rw [rangeLen_eq_zero_pos hc h]; rfl
+
+theorem toNat_eq_of_lt_iff (x : Int) (k : Nat) (h : ∀ i : Nat, (i : Int) < x ↔ i < k) : x.toNat = k := by
+  have h1 := h k
+  have h2 := h (k - 1)
+  have h3 := h x.toNat
+  have h4 := h (x.toNat - 1)
+  omega
+
+/-- a decreasing range is the reverse of the increasing range `parse_assignment_indices` builds. -/
+theorem rangeList_neg_reverse (a b c : Int) (hc : c < 0) :
+    rangeList a b c = (rangeList (a - (a - b - 1) / (-c) * (-c)) (a + 1) (-c)).reverse := by
+  have hm : 0 < -c := by omega
+  generalize hd : (a - b - 1) / (-c) = d
+  have hlen : ∀ i : Nat, (i < rangeLen a b c ↔ (i : Int) ≤ d) ∧
+      (i < rangeLen (a - d * (-c)) (a + 1) (-c) ↔ (i : Int) ≤ d) := by
+    intro i
+    rw [lt_rangeLen_neg a b c hc, lt_rangeLen_pos _ _ _ hm]
+    have key : (i : Int) ≤ (a - b - 1) / (-c) ↔ (i : Int) * (-c) ≤ a - b - 1 := Int.le_ediv_iff_mul_le hm
+    rw [hd] at key
+    rw [Int.mul_neg] at key
+    constructor
+    · rw [key]; omega
+    · constructor
+      · intro h
+        have : (i : Int) * (-c) < (d + 1) * (-c) := by rw [Int.add_mul]; omega
+        have := Int.lt_of_mul_lt_mul_right this (Int.le_of_lt hm)
+        omega
+      · intro h
+        have := Int.mul_le_mul_of_nonneg_right h (Int.le_of_lt hm)
+        omega
+  have hlen_eq : rangeLen a b c = rangeLen (a - d * (-c)) (a + 1) (-c) :=
+    nat_eq_of_lt_iff (fun i => by rw [(hlen i).1, (hlen i).2])
+  apply List.ext_getElem?
+  intro i
+  by_cases hi : i < rangeLen a b c
+  · have hi2 : i < rangeLen (a - d * (-c)) (a + 1) (-c) := hlen_eq ▸ hi
+    rw [List.getElem?_reverse (by simpa using hi2), getElem?_rangeList, getElem?_rangeList, length_rangeList]
+    have hid : (i : Int) ≤ d := (hlen i).1.mp hi
+    -- the last index
+    have hlast : ¬ ((rangeLen (a - d * (-c)) (a + 1) (-c) : Nat) : Int) ≤ d := by
+      intro h; have := (hlen (rangeLen (a - d * (-c)) (a + 1) (-c))).2.mpr h; omega
+    have hlast2 : ((rangeLen (a - d * (-c)) (a + 1) (-c) - 1 : Nat) : Int) ≤ d := by
+      have := (hlen (rangeLen (a - d * (-c)) (a + 1) (-c) - 1)).2.mp (by omega); exact this
+    have hj : ((rangeLen (a - d * (-c)) (a + 1) (-c) - 1 - i : Nat) : Int) = d - i := by omega
+    simp only [hi, if_true]
+    have hlt : rangeLen (a - d * (-c)) (a + 1) (-c) - 1 - i < rangeLen (a - d * (-c)) (a + 1) (-c) := by omega
+    simp only [hlt, if_true, hj]
+    congr 1
+    simp only [Int.sub_mul, Int.mul_neg]
+    omega
+  · have hi2 : ¬ i < rangeLen (a - d * (-c)) (a + 1) (-c) := hlen_eq ▸ hi
+    rw [List.getElem?_eq_none (by simpa using hi), List.getElem?_eq_none (by simpa using hi2)]
+
+/-- what the block arithmetic needs to know about a parsed assignment slice. -/
+structure PF (s : PySlice) (n A B m : Int) : Prop where
+  idx : parseAssign s n = ⟨some A, some B, some m⟩
+  hm : 0 < m
+  hA : 0 ≤ A
+  hB : B ≤ n
+  selP : sel (parseAssign s n) n = rangeList A B m
+  selS : sel s n = if parseAssignReversed s n then (rangeList A B m).reverse else rangeList A B m
+  impl : A < B → parseAssignImplied s n = ceilq (B - A) m
+  implNat : (parseAssignImplied s n).toNat = rangeLen A B m
+
+theorem ceilq_toNat (A B m : Int) (hm : 0 < m) : (ceilq (B - A) m).toNat = rangeLen A B m := by
+  apply toNat_eq_of_lt_iff
+  intro i
+  rw [ceilq_spec _ _ hm, lt_rangeLen_pos _ _ _ hm]; omega
+
+theorem parseImplied_eq (t : PySlice) (n : Int) (h : 0 < (parseIndex2 t n).stp) :
+    parseImplied t n = ceilq ((parseIndex2 t n).istop n - (parseIndex2 t n).istart n) (parseIndex2 t n).stp := by
+  unfold parseImplied parseDiv parseMod ceilq
+  simp only [pyDiv_pos _ _ h, pyMod_pos _ _ h]
+  generalize (parseIndex2 t n).istop n - (parseIndex2 t n).istart n = D
+  generalize (parseIndex2 t n).stp = m
+  split
+  · rename_i h0; simp [h0.1, h0.2]
+  · rfl
+
+theorem sel_mk_pos' (A B m n : Int) (hm : 0 < m) :
+    sel ⟨some A, some B, some m⟩ n = rangeList (adjust A n false) (adjust B n false) m := by
+  rw [sel_mk_pos (some A) (some B) (some m) n m (by simp [stp]) hm]; rfl
+
+theorem parse_facts (s : PySlice) (n : Int) (hn : 0 ≤ n) (hs : s.stp ≠ 0) : ∃ A B m, PF s n A B m := by
+  have hsel := sel_normalizeSlice s n (by omega) hs
+  have hstp := normalizeSlice_stp s n
+  have e1 : parseAssign s n = parseIndex2 (normalizeSlice s n) n := rfl
+  have e2 : parseAssignImplied s n = parseImplied (normalizeSlice s n) n := rfl
+  have e3 : parseAssignReversed s n = parseReversed (normalizeSlice s n) := rfl
+  rcases Int.lt_trichotomy s.stp 0 with hc | hc | hc
+  · -- negative step
+    have ha0 : 0 ≤ (normalizeSlice s n).istart n ∨ n = 0 := by
+      by_cases h0 : n = 0
+      · exact Or.inr h0
+      · exact Or.inl (normalizeSlice_istart_nonneg s n (by omega) hc)
+    generalize normalizeSlice s n = t at *
+    have hc' : t.stp < 0 := by omega
+    have ha := istart_neg_bounds t n (by omega) hc'
+    have hb := istop_neg_bounds t n (by omega) hc'
+    have hsel_t : sel t n = rangeList (t.istart n) (t.istop n) t.stp := rfl
+    have hp1 : parseIndex1 t n = ⟨some (t.istart n), if t.stp < 0 ∧ t.istop n = -1 then none else some (t.istop n), some t.stp⟩ := rfl
+    generalize hae : t.istart n = a at *
+    generalize hbe : t.istop n = b at *
+    generalize hce : t.stp = c at *
+    have hm : 0 < -c := by omega
+    -- parseIndex1
+    have hi1a : (parseIndex1 t n).istart n = a := by
+      rw [hp1]; simp only [istart, stp, Option.getD_some, hc', decide_true]
+      unfold adjust; simp only [if_true]; split <;> split <;> omega
+    have hi1b : (parseIndex1 t n).istop n = b := by
+      rw [hp1]
+      by_cases hb1 : b = -1
+      · simp [istop, stp, hc', hb1]
+      · simp only [hb1, and_false, if_false, istop, stp, Option.getD_some, hc', decide_true]
+        exact adjust_true_id b n (by omega) (by omega)
+    have hi1c : (parseIndex1 t n).stp = c := hce
+    have hidx : parseIndex2 t n =
+        ⟨some (a - (a - b - 1) / (-c) * (-c)), some (a - (a - b - 1) / (-c) * (-c) + (a - b - 1) / (-c) * (-c) + 1), some (-c)⟩ := by
+      unfold parseIndex2
+      simp only [hce, hc', if_true, hi1a, hi1b, hi1c, pyDiv_pos _ _ hm]
+    generalize hd : (a - b - 1) / (-c) = d at hidx
+    have hdm : d * (-c) ≤ a - b - 1 := by rw [← hd]; exact Int.ediv_mul_le _ (by omega)
+    have hA0 : 0 ≤ a - d * (-c) := by
+      by_cases hab : b < a
+      · omega
+      · have : d < 0 := by rw [← hd]; exact (Int.ediv_lt_iff_lt_mul hm).mpr (by omega)
+        have h1 : d ≤ -1 := by omega
+        have := Int.mul_le_mul_of_nonneg_right h1 (Int.le_of_lt hm)
+        omega
+    have hBe : a - d * (-c) + d * (-c) + 1 = a + 1 := by omega
+    rw [hBe] at hidx
+    have hAB : a - d * (-c) < a + 1 → a - d * (-c) ≤ n := by omega
+    have hselP : sel (parseIndex2 t n) n = rangeList (a - d * (-c)) (a + 1) (-c) := by
+      rw [hidx, sel_mk_pos' _ _ _ _ hm, adjust_false_id (a + 1) n (by omega) (by omega)]
+      by_cases hle : a - d * (-c) ≤ n
+      · rw [adjust_false_id _ _ hA0 hle]
+      · rw [adjust_false_nonneg _ _ hA0]
+        simp only [show a - d * (-c) > n by omega, if_true]
+        rw [rangeList_nil_pos _ _ _ hm (by omega), rangeList_nil_pos _ _ _ hm (by omega)]
+    refine ⟨a - d * (-c), a + 1, -c, ?_⟩
+    refine ⟨by rw [e1, hidx], hm, hA0, by omega, by rw [e1, hselP], ?_, ?_, ?_⟩
+    · rw [e3]; simp only [parseReversed, hce, hc', decide_true, if_true]
+      rw [← hsel, hsel_t, rangeList_neg_reverse a b c hc', hd]
+    · intro hlt
+      rw [e2, parseImplied_eq t n (by rw [hidx]; simpa [stp] using hm), hidx]
+      simp only [istart, istop, stp, Option.getD_some]
+      have : ¬ (-c < 0) := by omega
+      simp only [this, decide_false]
+      rw [adjust_false_id _ _ hA0 (hAB hlt), adjust_false_id (a + 1) n (by omega) (by omega)]
+    · rw [e2, parseImplied_eq t n (by rw [hidx]; simpa [stp] using hm), hidx]
+      simp only [istart, istop, stp, Option.getD_some]
+      have : ¬ (-c < 0) := by omega
+      simp only [this, decide_false]
+      rw [adjust_false_id (a + 1) n (by omega) (by omega), ceilq_toNat _ _ _ hm]
+      by_cases hle : a - d * (-c) ≤ n
+      · rw [adjust_false_id _ _ hA0 hle]
+      · rw [adjust_false_nonneg _ _ hA0]
+        simp only [show a - d * (-c) > n by omega, if_true]
+        rw [rangeLen_eq_zero_pos hm (by omega), rangeLen_eq_zero_pos hm (by omega)]
+  · exact absurd hc hs
+  · generalize normalizeSlice s n = t at *
+    have hc' : 0 < t.stp := by omega
+    have ha := istart_pos_bounds t n (by omega) hc'
+    have hb := istop_pos_bounds t n (by omega) hc'
+    have hsel_t : sel t n = rangeList (t.istart n) (t.istop n) t.stp := rfl
+    have hidx : parseIndex2 t n = ⟨some (t.istart n), some (t.istop n), some t.stp⟩ := by
+      have hnc : ¬ t.stp < 0 := by omega
+      simp [parseIndex2, parseIndex1, hnc]
+    generalize hae : t.istart n = a at *
+    generalize hbe : t.istop n = b at *
+    generalize hce : t.stp = c at *
+    have hnc : ¬ c < 0 := by omega
+    have hselP : sel (parseIndex2 t n) n = rangeList a b c := by
+      rw [hidx, sel_mk_pos' _ _ _ _ hc', adjust_false_id a n ha.1 ha.2, adjust_false_id b n hb.1 hb.2]
+    have himp : parseImplied t n = ceilq (b - a) c := by
+      rw [parseImplied_eq t n (by rw [hidx]; simpa [stp] using hc'), hidx]
+      simp only [istart, istop, stp, Option.getD_some, hnc, decide_false]
+      rw [adjust_false_id a n ha.1 ha.2, adjust_false_id b n hb.1 hb.2]
+    refine ⟨a, b, c, ?_⟩
+    refine ⟨by rw [e1, hidx], hc', ha.1, hb.2, by rw [e1, hselP], ?_, ?_, ?_⟩
+    · rw [e3]; simp only [parseReversed, hce, hnc, decide_false]
+      rw [← hsel, hsel_t]; simp
+    · intro _; rw [e2, himp]
+    · rw [e2, himp, ceilq_toNat _ _ _ hc']
+
+/-! ## per-block arithmetic of `setitem_array_expr` -/
+
+/-- first progression point at or after `l0`, when the progression starts before `l0`:
+`l0 + (A - l0) % m = A + ceilq (l0 - A) m * m`. -/
+theorem first_in_block (A m l0 : Int) (hm : 0 < m) (h : A - l0 < 0) :
+    ceilq (l0 - A) m * m = l0 - A + (A - l0) % m ∧ 0 < ceilq (l0 - A) m := by
+  have hdm := Int.emod_def (A - l0) m
+  have hr0 := Int.emod_nonneg (A - l0) (by omega : m ≠ 0)
+  have hr1 := Int.emod_lt_of_pos (A - l0) hm
+  have e : ceilq (l0 - A) m = -((A - l0) / m) := by
+    apply int_eq_of_lt_iff
+    intro i
+    rw [ceilq_spec _ _ hm]
+    have hmul : (-((A - l0) / m)) * m = l0 - A + (A - l0) % m := by
+      rw [Int.neg_mul, Int.mul_comm]; omega
+    constructor
+    · intro hi
+      apply Int.lt_of_mul_lt_mul_right (a := m) _ (Int.le_of_lt hm)
+      omega
+    · intro hi
+      have h1 : i + 1 ≤ -((A - l0) / m) := by omega
+      have h2 := Int.mul_le_mul_of_nonneg_right h1 (Int.le_of_lt hm)
+      rw [Int.add_mul] at h2
+      omega
+  constructor
+  · rw [e, Int.neg_mul, Int.mul_comm]; omega
+  · exact (ceilq_spec _ _ hm 0).mpr (by omega)
+
+/-- the per-block start / stop / n_preceding arithmetic of `setitem_array_expr`, in rank form. -/
+theorem block_core_aux (A B m l0 l1 q : Int) (hm : 0 < m) (hq0 : 0 ≤ q) (hq1 : q < l1 - l0) :
+    let sb := if A - l0 < 0 then (A - l0) % m else A - l0
+    let eb := if B < l1 then (l1 - l0) - (l1 - B) else l1 - l0
+    let k0 := if A - l0 < 0 then ceilq (l0 - A) m else 0
+    0 ≤ sb ∧ 0 ≤ k0 ∧
+    (∀ j : Nat, q = sb + (j : Int) * m → q < eb → l0 + q = A + (k0 + j) * m ∧ l0 + q < B) ∧
+    (∀ r : Nat, l0 + q = A + (r : Int) * m → l0 + q < B →
+      ∃ j : Nat, q = sb + (j : Int) * m ∧ q < eb ∧ (r : Int) = k0 + j) := by
+  intro sb eb k0
+  have heb : ∀ x : Int, x < l1 - l0 → (x < eb ↔ l0 + x < B) := by
+    intro x hx; simp only [eb]; split <;> omega
+  by_cases hA : A - l0 < 0
+  · have hf := first_in_block A m l0 hm hA
+    have hr0 := Int.emod_nonneg (A - l0) (by omega : m ≠ 0)
+    have hsb : sb = (A - l0) % m := by simp [sb, hA]
+    have hk0 : k0 = ceilq (l0 - A) m := by simp [k0, hA]
+    refine ⟨by omega, by omega, ?_, ?_⟩
+    · intro j hj hlt
+      refine ⟨?_, (heb q hq1).mp hlt⟩
+      rw [Int.add_mul, hk0, hf.1]; omega
+    · intro r hr hlt
+      have hge : ¬ (r : Int) < ceilq (l0 - A) m := by
+        rw [ceilq_spec _ _ hm]; omega
+      refine ⟨((r : Int) - k0).toNat, ?_, (heb q hq1).mpr hlt, ?_⟩
+      · have : (((r : Int) - k0).toNat : Int) = r - k0 := Int.toNat_of_nonneg (by omega)
+        rw [this, Int.sub_mul, hk0, hf.1]; omega
+      · have : (((r : Int) - k0).toNat : Int) = r - k0 := Int.toNat_of_nonneg (by omega)
+        omega
+  · have hsb : sb = A - l0 := by simp [sb, hA]
+    have hk0 : k0 = 0 := by simp [k0, hA]
+    refine ⟨by omega, by omega, ?_, ?_⟩
+    · intro j hj hlt
+      refine ⟨?_, (heb q hq1).mp hlt⟩
+      rw [hk0]; simp; omega
+    · intro r hr hlt
+      exact ⟨r, by omega, (heb q hq1).mpr hlt, by omega⟩
+
+/-- `block_index.start` of a block `[l0, …)` for a progression starting at `A` with step `m`. -/
+def sbOf (A m l0 : Int) : Int := if A - l0 < 0 then (A - l0) % m else A - l0
+/-- `block_index.stop`. -/
+def ebOf (B l0 l1 : Int) : Int := if B < l1 then (l1 - l0) - (l1 - B) else l1 - l0
+/-- number of progression points before the block (`n_preceding`). -/
+def k0Of (A m l0 : Int) : Int := if A - l0 < 0 then ceilq (l0 - A) m else 0
+
+theorem block_core (A B m l0 l1 q : Int) (hm : 0 < m) (hq0 : 0 ≤ q) (hq1 : q < l1 - l0) :
+    0 ≤ sbOf A m l0 ∧ 0 ≤ k0Of A m l0 ∧
+    (∀ j : Nat, q = sbOf A m l0 + (j : Int) * m → q < ebOf B l0 l1 →
+      l0 + q = A + (k0Of A m l0 + j) * m ∧ l0 + q < B) ∧
+    (∀ r : Nat, l0 + q = A + (r : Int) * m → l0 + q < B →
+      ∃ j : Nat, q = sbOf A m l0 + (j : Int) * m ∧ q < ebOf B l0 l1 ∧ (r : Int) = k0Of A m l0 + j) :=
+  block_core_aux A B m l0 l1 q hm hq0 hq1
+
+theorem blk_eqs (A B m l0 l1 : Int) (hm : 0 < m) :
+    blkStart ⟨some A, some B, some m⟩ l0 = sbOf A m l0 ∧
+    blkStop ⟨some A, some B, some m⟩ l0 l1 = ebOf B l0 l1 ∧
+    blkSize ⟨some A, some B, some m⟩ l0 l1 = ceilq (ebOf B l0 l1 - sbOf A m l0) m := by
+  refine ⟨?_, ?_, ?_⟩
+  · simp only [blkStart, sbOf, Option.getD_some, pyMod_pos _ _ hm]
+  · simp only [blkStop, ebOf, Option.getD_some]
+  · simp only [blkSize, blkStart, blkStop, sbOf, ebOf, ceilq, Option.getD_some, pyMod_pos _ _ hm, pyDiv_pos _ _ hm]
+    rfl
+
+theorem ceilq_zero (m : Int) : ceilq 0 m = 0 := by simp [ceilq]
+
+theorem blkPreceding_eq (A B m l0 : Int) (hm : 0 < m) (hA : 0 ≤ A) (hl0 : 0 ≤ l0) (hB : l0 < B) :
+    blkPreceding ⟨some A, some B, some m⟩ l0 = k0Of A m l0 := by
+  have hnm : ¬ m < 0 := by omega
+  simp only [blkPreceding, istart, istop, stp, Option.getD_some, hnm, decide_false,
+    pyMod_pos _ _ hm, pyDiv_pos _ _ hm]
+  rw [adjust_false_nonneg A l0 hA, adjust_false_nonneg B l0 (by omega)]
+  simp only [show B > l0 by omega, if_true]
+  unfold k0Of
+  by_cases h : A - l0 < 0
+  · simp only [h, if_true, show ¬ A > l0 by omega, if_false]; rfl
+  · simp only [h, if_false]
+    by_cases h2 : A > l0
+    · simp only [h2, if_true, Int.sub_self]; simp
+    · have : A = l0 := by omega
+      simp only [h2, if_false, this, Int.sub_self]; simp
+
+theorem sel_mk_pos1 (x y n : Int) : sel ⟨some x, some y, none⟩ n = rangeList (adjust x n false) (adjust y n false) 1 := by
+  rw [sel_mk_pos (some x) (some y) none n 1 (by simp [stp]) (by omega)]; rfl
+theorem findIdx_reverse_rangeList_some (a b c p : Int) (hc : c ≠ 0) (k : Nat)
+    (hk : k < rangeLen a b c) (hp : p = a + (k : Int) * c) :
+    (rangeList a b c).reverse.findIdx? (· == p) = some (rangeLen a b c - 1 - k) := by
+  rw [List.findIdx?_eq_some_iff_getElem]
+  refine ⟨by simp; omega, ?_, ?_⟩
+  · simp only [List.getElem_reverse, length_rangeList, getElem_rangeList, hp, beq_iff_eq]
+    have : rangeLen a b c - 1 - (rangeLen a b c - 1 - k) = k := by omega
+    rw [this]
+  · intro j hj
+    simp only [List.getElem_reverse, length_rangeList, getElem_rangeList, hp, beq_iff_eq]
+    intro e
+    have e2 : (((rangeLen a b c - 1 - j : Nat) : Int) - k) * c = 0 := by rw [Int.sub_mul]; omega
+    rcases Int.mul_eq_zero.mp e2 with h | h
+    · omega
+    · exact hc h
+
+theorem findIdx_reverse_rangeList_none (a b c p : Int)
+    (h : ∀ k : Nat, k < rangeLen a b c → p ≠ a + (k : Int) * c) :
+    (rangeList a b c).reverse.findIdx? (· == p) = none := by
+  rw [List.findIdx?_eq_none_iff]
+  intro x hx
+  rw [List.mem_reverse, mem_rangeList] at hx
+  obtain ⟨i, hi, rfl⟩ := hx
+  simp only [beq_eq_false_iff_ne, ne_eq]
+  intro e
+  exact h i hi e.symm
+
+/-- NumPy side in rank form. -/
+theorem npSource_some (s : PySlice) (n A B m : Int) (pf : PF s n A B m) (p : Int) (r : Nat)
+    (hr : p = A + (r : Int) * m) (hlt : p < B) :
+    npSource s n p = some (if parseAssignReversed s n then rangeLen A B m - 1 - r else r) := by
+  have hrl : r < rangeLen A B m := (lt_rangeLen_pos A B m pf.hm r).mpr (by omega)
+  unfold npSource
+  rw [pf.selS]
+  split
+  · exact findIdx_reverse_rangeList_some A B m p (by have := pf.hm; omega) r hrl hr
+  · exact findIdx_rangeList_some A B m p (by have := pf.hm; omega) r hrl hr
+
+theorem npSource_none (s : PySlice) (n A B m : Int) (pf : PF s n A B m) (p : Int)
+    (h : ∀ r : Nat, p = A + (r : Int) * m → ¬ p < B) : npSource s n p = none := by
+  have h' : ∀ k : Nat, k < rangeLen A B m → p ≠ A + (k : Int) * m := by
+    intro k hk e
+    exact h k e (by have := (lt_rangeLen_pos A B m pf.hm k).mp hk; omega)
+  unfold npSource
+  rw [pf.selS]
+  split
+  · exact findIdx_reverse_rangeList_none A B m p h'
+  · exact findIdx_rangeList_none A B m p h'
+
+theorem blockSource_some (s : PySlice) (n A B m : Int) (pf : PF s n A B m) (bcast : Bool)
+    (l0 l1 q : Int) (hl0 : 0 ≤ l0) (hq0 : 0 ≤ q) (hq1 : q < l1 - l0)
+    (j : Nat) (hj : q = sbOf A m l0 + (j : Int) * m) (hlt : q < ebOf B l0 l1) :
+    blockSource s n bcast l0 l1 q =
+      some (if bcast then 0 else
+        if parseAssignReversed s n then ((rangeLen A B m : Int) - 1 - (k0Of A m l0 + j)).toNat
+        else (k0Of A m l0 + j).toNat) := by
+  have hm := pf.hm
+  have hA := pf.hA
+  obtain ⟨hsb0, hk00, hfw, _⟩ := block_core A B m l0 l1 q hm hq0 hq1
+  obtain ⟨hrank, hpB⟩ := hfw j hj hlt
+  have hjm : 0 ≤ (j : Int) * m := Int.mul_nonneg (Int.natCast_nonneg j) (Int.le_of_lt hm)
+  have hkm : 0 ≤ k0Of A m l0 * m := Int.mul_nonneg hk00 (Int.le_of_lt hm)
+  have hAB : A < B := by rw [Int.add_mul] at hrank; omega
+  have hebL : ebOf B l0 l1 ≤ l1 - l0 := by unfold ebOf; split <;> omega
+  obtain ⟨e1, e2, e3⟩ := blk_eqs A B m l0 l1 hm
+  have e4 := blkPreceding_eq A B m l0 hm hA hl0 (by omega)
+  unfold blockSource
+  simp only [pf.idx, e1, e2, e3, e4, blkOverlaps]
+  have hov : ¬ sbOf A m l0 ≥ ebOf B l0 l1 := by omega
+  simp only [hov, decide_false, Bool.not_false, if_true]
+  -- the block selection
+  have hsel : sel ⟨some (sbOf A m l0), some (ebOf B l0 l1), some m⟩ (l1 - l0)
+      = rangeList (sbOf A m l0) (ebOf B l0 l1) m := by
+    rw [sel_mk_pos' _ _ _ _ hm, adjust_false_id _ _ hsb0 (by omega), adjust_false_id _ _ (by omega) hebL]
+  have hjl : j < rangeLen (sbOf A m l0) (ebOf B l0 l1) m := (lt_rangeLen_pos _ _ _ hm j).mpr (by omega)
+  rw [hsel, findIdx_rangeList_some _ _ m q (by omega) j hjl hj]
+  simp only []
+  cases bcast with
+  | true => simp
+  | false =>
+    simp only [Bool.false_eq_true, if_false]
+    -- sizes
+    have hV := pf.impl hAB
+    have hVn := pf.implNat
+    have hrV : k0Of A m l0 + j < ceilq (B - A) m := (ceilq_spec _ _ hm _).mpr (by omega)
+    have hjs : (j : Int) < ceilq (ebOf B l0 l1 - sbOf A m l0) m := (ceilq_spec _ _ hm _).mpr (by omega)
+    rw [hV] at hVn ⊢
+    generalize ceilq (B - A) m = V at *
+    generalize ceilq (ebOf B l0 l1 - sbOf A m l0) m = size at *
+    generalize k0Of A m l0 = k0 at *
+    have hVnat : ((rangeLen A B m : Nat) : Int) = V := by omega
+    unfold blockValueSlice valueSlice
+    simp only [Bool.false_eq_true, if_false]
+    -- clamp of the value slice ends
+    have hc1 : adjust k0 V false = k0 := adjust_false_id _ _ hk00 (by omega)
+    have hc2 : k0 + j < adjust (k0 + size) V false ∧ adjust (k0 + size) V false ≤ V := by
+      rw [adjust_false_nonneg _ _ (by omega)]; split <;> omega
+    split
+    · -- reversed
+      unfold reverseValueSlice
+      have hst : (⟨some k0, some (k0 + size), none⟩ : PySlice).istart V = k0 := by
+        simp [istart, stp, hc1]
+      have hsp : (⟨some k0, some (k0 + size), none⟩ : PySlice).istop V = adjust (k0 + size) V false := by
+        simp [istop, stp]
+      simp only [hst, hsp]
+      generalize adjust (k0 + size) V false = e0 at hc2
+      have hsel2 : sel ⟨some (V - 1 - k0), if V - 1 - e0 < 0 then none else some (V - 1 - e0), some (-1)⟩ V
+          = rangeList (V - 1 - k0) (V - 1 - e0) (-1) := by
+        rw [sel_mk_neg _ _ _ V (-1) (by simp [stp]) (by omega)]
+        by_cases h0 : V - 1 - e0 < 0
+        · simp only [h0, if_true, Option.map_some, Option.getD_some, Option.map_none, Option.getD_none]
+          rw [adjust_true_id _ _ (by omega) (by omega)]
+          have : V - 1 - e0 = -1 := by omega
+          rw [this]
+        · simp only [h0, if_false, Option.map_some, Option.getD_some]
+          rw [adjust_true_id _ _ (by omega) (by omega), adjust_true_id _ _ (by omega) (by omega)]
+      rw [hsel2, getElem?_rangeList]
+      have : j < rangeLen (V - 1 - k0) (V - 1 - e0) (-1) := (lt_rangeLen_neg _ _ _ (by omega) j).mpr (by omega)
+      simp only [this, if_true, Option.map_some]
+      congr 1
+      rw [hVnat]; congr 1; omega
+    · rw [sel_mk_pos1, hc1, getElem?_rangeList]
+      have : j < rangeLen k0 (adjust (k0 + size) V false) 1 := (lt_rangeLen_pos _ _ _ (by omega) j).mpr (by omega)
+      simp only [this, if_true, Option.map_some]
+      congr 1; congr 1; omega
+
+theorem blockSource_none (s : PySlice) (n A B m : Int) (pf : PF s n A B m) (bcast : Bool)
+    (l0 l1 q : Int) (hq0 : 0 ≤ q) (hq1 : q < l1 - l0)
+    (h : ∀ j : Nat, q = sbOf A m l0 + (j : Int) * m → ¬ q < ebOf B l0 l1) :
+    blockSource s n bcast l0 l1 q = none := by
+  have hm := pf.hm
+  obtain ⟨hsb0, _, _, _⟩ := block_core A B m l0 l1 q hm hq0 hq1
+  have hebL : ebOf B l0 l1 ≤ l1 - l0 := by unfold ebOf; split <;> omega
+  obtain ⟨e1, e2, _⟩ := blk_eqs A B m l0 l1 hm
+  unfold blockSource
+  simp only [pf.idx, e1, e2, blkOverlaps]
+  by_cases hov : sbOf A m l0 ≥ ebOf B l0 l1
+  · simp [hov]
+  · simp only [hov, decide_false, Bool.not_false, if_true]
+    have hsel : sel ⟨some (sbOf A m l0), some (ebOf B l0 l1), some m⟩ (l1 - l0)
+        = rangeList (sbOf A m l0) (ebOf B l0 l1) m := by
+      rw [sel_mk_pos' _ _ _ _ hm, adjust_false_id _ _ hsb0 (by omega), adjust_false_id _ _ (by omega) hebL]
+    rw [hsel, findIdx_rangeList_none]
+    intro k hk e
+    have := (lt_rangeLen_pos _ _ _ hm k).mp hk
+    exact h k e (by omega)
+
+/-- THE per-block theorem: what the chunked algorithm writes at local position `q` of a block
+is what NumPy's `x[s] = v` writes at global position `loc0 + q`. -/
+theorem blockSource_eq_npSource (s : PySlice) (n : Int) (hs : s.stp ≠ 0) (bcast : Bool)
+    (l0 l1 q : Int) (hl0 : 0 ≤ l0) (hl1 : l1 ≤ n) (hq0 : 0 ≤ q) (hq1 : q < l1 - l0) :
+    blockSource s n bcast l0 l1 q = npSourceB s n bcast (l0 + q) := by
+  obtain ⟨A, B, m, pf⟩ := parse_facts s n (by omega) hs
+  have hm := pf.hm
+  obtain ⟨_, hk00, hfw, hbw⟩ := block_core A B m l0 l1 q hm hq0 hq1
+  by_cases hex : ∃ r : Nat, l0 + q = A + (r : Int) * m ∧ l0 + q < B
+  · obtain ⟨r, hr, hlt⟩ := hex
+    obtain ⟨j, hj, hjlt, hrj⟩ := hbw r hr hlt
+    rw [blockSource_some s n A B m pf bcast l0 l1 q hl0 hq0 hq1 j hj hjlt]
+    unfold npSourceB
+    rw [npSource_some s n A B m pf (l0 + q) r hr hlt]
+    simp only [Option.map_some]
+    congr 1
+    cases bcast with
+    | true => simp
+    | false =>
+      simp only [Bool.false_eq_true, if_false]
+      split <;> omega
+  · have hnone : npSource s n (l0 + q) = none :=
+      npSource_none s n A B m pf (l0 + q) (fun r hr hlt => hex ⟨r, hr, hlt⟩)
+    unfold npSourceB
+    rw [hnone]
+    apply blockSource_none s n A B m pf bcast l0 l1 q hq0 hq1
+    intro j hj hlt
+    obtain ⟨h1, h2⟩ := hfw j hj hlt
+    apply hex
+    refine ⟨(k0Of A m l0 + j).toNat, ?_, h2⟩
+    rw [Int.toNat_of_nonneg (by omega)]; exact h1
+
+/-! ## assembling the blocks -/
+
+theorem isum_nonneg (cs : List Int) (hc : ∀ c ∈ cs, 0 ≤ c) : 0 ≤ isum cs := by
+  induction cs with
+  | nil => simp [isum]
+  | cons c cs ih =>
+    have h1 := hc c (by simp)
+    have h2 := ih (fun c' h => hc c' (by simp [h]))
+    simp only [isum]; omega
+
+/-- assembling the blocks: a function of the global position, evaluated block by block. -/
+theorem setitem_blocks {α} (s : PySlice) (N : Int) (hs : s.stp ≠ 0) (bcast : Bool) (x : Int → α) (v : Nat → α)
+    (cs : List Int) (hc : ∀ c ∈ cs, 0 ≤ c) :
+    ∀ off : Int, 0 ≤ off → off + isum cs ≤ N →
+    (blockBounds off cs).flatMap (fun b =>
+      (List.range (b.2 - b.1).toNat).map (fun (q : Nat) =>
+        pick (blockSource s N bcast b.1 b.2 (q : Int)) v (x (b.1 + (q : Int)))))
+    = (List.range (isum cs).toNat).map (fun (p : Nat) =>
+        pick (npSourceB s N bcast (off + (p : Int))) v (x (off + (p : Int)))) := by
+  induction cs with
+  | nil => intro off _ _; simp [blockBounds, isum]
+  | cons c cs ih =>
+    intro off hoff hN
+    have h1 := hc c (by simp)
+    have hcs : ∀ c' ∈ cs, 0 ≤ c' := fun c' h => hc c' (by simp [h])
+    have h2 := isum_nonneg cs hcs
+    simp only [isum] at hN
+    simp only [blockBounds, List.flatMap_cons, isum]
+    rw [ih hcs (off + c) (by omega) (by omega)]
+    have e : (c + isum cs).toNat = c.toNat + (isum cs).toNat := by omega
+    rw [e, List.range_add, List.map_append, List.map_map]
+    have e0 : off + c - off = c := by omega
+    rw [e0]
+    congr 1
+    · apply List.map_congr_left
+      intro q hq
+      have hq' := List.mem_range.mp hq
+      rw [blockSource_eq_npSource s N hs bcast off (off + c) q hoff (by omega) (by omega) (by omega)]
+    · apply List.map_congr_left
+      intro p _
+      simp only [Function.comp]
+      have : off + c + (p : Int) = off + ((c.toNat + p : Nat) : Int) := by omega
+      rw [this]
+
+theorem setitemChunked_eq {α} (chunks : List Int) (hc : ∀ c ∈ chunks, 0 ≤ c) (x : Int → α) (s : PySlice)
+    (hs : s.stp ≠ 0) (bcast : Bool) (v : Nat → α) :
+    setitemChunked chunks x s bcast v = npAssign (isum chunks) x s bcast v := by
+  unfold setitemChunked npAssign
+  rw [setitem_blocks s (isum chunks) hs bcast x v chunks hc 0 (by omega) (by omega)]
+  simp
+
+/-! ### parse theorems -/
+
+theorem sel_len_zero (t : PySlice) : sel t 0 = [] := by
+  by_cases h : t.stp = 0
+  · exact sel_stp_zero t 0 h
+  · apply List.eq_nil_iff_forall_not_mem.mpr
+    intro p hp
+    have := sel_bounds t 0 (by omega) h p hp
+    omega
+
+theorem parseAssign_sel (s : PySlice) (n : Int) (hn : 0 ≤ n) (hs : s.stp ≠ 0) :
+    sel (parseAssign s n) n = if parseAssignReversed s n then (sel s n).reverse else sel s n := by
+  obtain ⟨A, B, m, pf⟩ := parse_facts s n hn hs
+  rw [pf.selP, pf.selS]
+  split <;> simp
+
+theorem parseAssign_implied (s : PySlice) (n : Int) (hn : 0 ≤ n) (hs : s.stp ≠ 0) :
+    (parseAssignImplied s n).toNat = (sel s n).length ∧
+    (sel s n ≠ [] → parseAssignImplied s n = ((sel s n).length : Int)) := by
+  obtain ⟨A, B, m, pf⟩ := parse_facts s n hn hs
+  have hlen : (sel s n).length = rangeLen A B m := by
+    rw [pf.selS]; split <;> simp
+  refine ⟨by rw [pf.implNat, hlen], ?_⟩
+  intro hne
+  have hpos : 0 < rangeLen A B m := by
+    rw [← hlen]; exact List.length_pos_iff.mpr hne
+  have hAB : A < B := by
+    have := (lt_rangeLen_pos A B m pf.hm 0).mp hpos; omega
+  have h1 := pf.impl hAB
+  have h2 := pf.implNat
+  have h3 : 0 < ceilq (B - A) m := (ceilq_spec _ _ pf.hm 0).mpr (by omega)
+  rw [hlen]; omega
+
+/-- the parsed slice is concrete, increasing, and inside the axis. -/
+theorem parseAssign_shape (s : PySlice) (n : Int) (hn : 0 ≤ n) (hs : s.stp ≠ 0) :
+    ∃ A B m, parseAssign s n = ⟨some A, some B, some m⟩ ∧ 0 < m ∧ 0 ≤ A ∧ B ≤ n := by
+  obtain ⟨A, B, m, pf⟩ := parse_facts s n hn hs
+  exact ⟨A, B, m, pf.idx, pf.hm, pf.hA, pf.hB⟩
+
+/-! ### n-d per axis -/
+
+theorem blockSourceAxis_eq (k : Key) (n l0 l1 q : Int)
+    (hk : match k with | .slice s => s.stp ≠ 0 | .int i => -n ≤ i ∧ i < n)
+    (hl0 : 0 ≤ l0) (hl1 : l1 ≤ n) (hq0 : 0 ≤ q) (hq1 : q < l1 - l0) :
+    blockSourceAxis k n l0 l1 q = npSourceAxis k n (l0 + q) := by
+  cases k with
+  | slice s =>
+    simp only [blockSourceAxis, npSourceAxis]
+    rw [blockSource_eq_npSource s n hk false l0 l1 q hl0 hl1 hq0 hq1]
+    simp [npSourceB]
+  | int i =>
+    simp only [blockSourceAxis, npSourceAxis, blkInt]
+    generalize posifyInt n i = i'
+    by_cases h : l0 ≤ i' ∧ i' < l1
+    · have hiff : (q = i' - l0) ↔ (l0 + q = i') := by omega
+      simp only [h, and_self, if_true, hiff]
+    · simp only [h, if_false]
+      have : ¬ l0 + q = i' := by omega
+      simp [this]
+
+theorem blockSourceND_eq : ∀ (ks : List Key) (ns : List Int) (bs : List (Int × Int)) (qs : List Int),
+    AxesOK ks ns bs qs → blockSourceND ks ns bs qs = npSourceND ks ns (globalPos bs qs)
+  | [], [], [], [], _ => by simp [blockSourceND, npSourceND]
+  | k :: ks, n :: ns, b :: bs, q :: qs, h => by
+    simp only [AxesOK] at h
+    obtain ⟨hk, h0, h1, h2, h3, hrest⟩ := h
+    simp only [blockSourceND, npSourceND, globalPos]
+    rw [blockSourceAxis_eq k n b.1 b.2 q hk h0 h1 h2 h3, blockSourceND_eq ks ns bs qs hrest]
+  | [], _ :: _, _, _, h => by simp [AxesOK] at h
+  | [], [], _ :: _, _, h => by simp [AxesOK] at h
+  | [], [], [], _ :: _, h => by simp [AxesOK] at h
+  | _ :: _, [], _, _, h => by simp [AxesOK] at h
+  | _ :: _, _ :: _, [], _, h => by simp [AxesOK] at h
+  | _ :: _, _ :: _, _ :: _, [], h => by simp [AxesOK] at h
+
+/-! ### the collection store -/
+
+theorem set_ne {K L} (s : Store K L) (x y : Nat) (e : Entry K L) (h : y ≠ x) : s.set x e y = s y := by
+  simp [Store.set, h]
+
+theorem replaceExpr_ne {K L} (s : Store K L) (x y : Nat) (e : Expr K) (h : y ≠ x) :
+    replaceExpr s x e y = s y := by
+  unfold replaceExpr
+  cases s x <;> simp [Store.set, h]
+
+/-- an operation only writes its target -/
+theorem cstep_frame {K L} (mat : Expr K → L) (s : Store K L) (op : COp K) (y : Nat) (h : y ≠ op.target) :
+    cstep mat s op y = s y := by
+  cases op with
+  | derive1 y' x f => simp only [COp.target] at h; simp only [cstep]; cases s x <;> simp [Store.set, h]
+  | derive2 y' x z f =>
+    simp only [COp.target] at h; simp only [cstep]
+    cases s x <;> cases s z <;> simp [Store.set, h]
+  | setitem x key z =>
+    simp only [COp.target] at h; simp only [cstep]
+    cases s x <;> cases s z <;> simp [replaceExpr_ne, h]
+  | outUfunc x a b f =>
+    simp only [COp.target] at h; simp only [cstep]
+    cases s a <;> cases s b <;> simp [replaceExpr_ne, h]
+  | computeChunkSizes x =>
+    simp only [COp.target] at h; simp only [cstep]
+    cases s x <;> simp [replaceExpr_ne, h]
+  | compute x =>
+    simp only [COp.target] at h; simp only [cstep]
+    cases s x <;> simp [Store.set, h]
+
+theorem crun_frame {K L} (mat : Expr K → L) (ops : List (COp K)) :
+    ∀ (s : Store K L) (y : Nat), (∀ op ∈ ops, y ≠ op.target) → crun mat ops s y = s y := by
+  induction ops with
+  | nil => intro s y _; rfl
+  | cons op ops ih =>
+    intro s y h
+    simp only [crun]
+    rw [ih _ y (fun o ho => h o (by simp [ho])), cstep_frame mat s op y (h op (by simp))]
+
+theorem inv_set_none {K L} (mat : Expr K → L) (s : Store K L) (x : Nat) (e : Expr K) (h : Inv mat s) :
+    Inv mat (s.set x ⟨e, none⟩) := by
+  intro y e' l hy hc
+  by_cases hyx : y = x
+  · simp [Store.set, hyx] at hy; subst hy; simp at hc
+  · rw [set_ne s x y _ hyx] at hy; exact h y e' l hy hc
+
+theorem inv_replaceExpr {K L} (mat : Expr K → L) (s : Store K L) (x : Nat) (e : Expr K) (h : Inv mat s) :
+    Inv mat (replaceExpr s x e) := by
+  unfold replaceExpr; split
+  · exact inv_set_none mat s x e h
+  · exact h
+
+theorem cstep_inv {K L} (mat : Expr K → L) (s : Store K L) (op : COp K) (h : Inv mat s) :
+    Inv mat (cstep mat s op) := by
+  cases op with
+  | compute x =>
+    simp only [cstep]
+    split
+    · rename_i ex hx
+      intro y e' l hy hc
+      by_cases hyx : y = x
+      · simp [Store.set, hyx] at hy; subst hy
+        simp only [Option.some.injEq] at hc
+        subst hc
+        cases hcache : ex.cache with
+        | none => rfl
+        | some l' => exact h x ex l' hx hcache
+      · rw [set_ne s x y _ hyx] at hy; exact h y e' l hy hc
+    · exact h
+  | derive1 y x f => simp only [cstep]; split <;> first | exact inv_set_none mat s _ _ h | exact h
+  | derive2 y x z f => simp only [cstep]; split <;> first | exact inv_set_none mat s _ _ h | exact h
+  | setitem x key z => simp only [cstep]; split <;> first | exact inv_replaceExpr mat s _ _ h | exact h
+  | outUfunc x a b f => simp only [cstep]; split <;> first | exact inv_replaceExpr mat s _ _ h | exact h
+  | computeChunkSizes x => simp only [cstep]; split <;> first | exact inv_replaceExpr mat s _ _ h | exact h
+
+theorem crun_inv {K L} (mat : Expr K → L) (ops : List (COp K)) :
+    ∀ (s : Store K L), Inv mat s → Inv mat (crun mat ops s) := by
+  induction ops with
+  | nil => intro s h; exact h
+  | cons op ops ih => intro s h; exact ih _ (cstep_inv mat s op h)
+
+/-- under the cache invariant a compute returns the NumPy meaning of the CURRENT expression. -/
+theorem computed_eq_den {K L A} (I : Interp K A) (mat : Expr K → L) (eval : L → A)
+    (sound : ∀ e, eval (mat e) = den I e) (s : Store K L) (h : Inv mat s) (x : Nat) :
+    computed mat eval s x = (s x).map (fun e => den I e.expr) := by
+  unfold computed
+  cases hx : s x with
+  | none => rfl
+  | some e =>
+    simp only [Option.map_some]
+    cases hc : e.cache with
+    | none => simp [sound]
+    | some l => simp only []; rw [h x e l hx hc, sound]
+
+/-! ### seeds of distinct blocks -/
+
+/-- distinct blocks draw distinct children when `spawn s` is injective -/
+theorem draw_nodup (spawn : Nat → Nat → Nat) (hinj : ∀ s a b, spawn s a = spawn s b → a = b)
+    (k : Kind) (g : Gen) (n : Nat) : (draw spawn k g n).1.Nodup := by
+  cases k with
+  | generator =>
+    simp only [draw]
+    refine List.Pairwise.map _ ?_ List.nodup_range
+    intro a b hab e
+    exact hab (by have := hinj _ _ _ e; omega)
+  | randomState =>
+    simp only [draw]
+    refine List.Pairwise.map _ ?_ List.nodup_range
+    intro a b hab e
+    exact hab (hinj _ _ _ e)
+
+theorem nodup_getElem?_inj {α} (l : List α) (h : l.Nodup) (i j : Nat) (hi : i < l.length) (hj : j < l.length)
+    (e : l[i]? = l[j]?) : i = j := by
+  rw [List.getElem?_eq_getElem hi, List.getElem?_eq_getElem hj] at e
+  have e' := Option.some.inj e
+  exact (List.getElem_inj h).mp e'
+
+/-- each block of the grid gets its own seed -/
+theorem observe_inj (spawn : Nat → Nat → Nat) (hinj : ∀ s a b, spawn s a = spawn s b → a = b)
+    (k : Kind) (g : Gen) (p : Params) (b b' : List Nat)
+    (hb : InGrid p.numblocks b) (hb' : InGrid p.numblocks b')
+    (e : (observe (construct spawn k g p).1 b).2 = (observe (construct spawn k g p).1 b').2) : b = b' := by
+  simp only [observe, construct] at e
+  rw [flatIndex_eq_rowMajor _ _ (inGrid_length _ _ hb), flatIndex_eq_rowMajor _ _ (inGrid_length _ _ hb')] at e
+  have hl := draw_length spawn k g (nblocks p.numblocks)
+  have h := nodup_getElem?_inj _ (draw_nodup spawn hinj k g (nblocks p.numblocks)) _ _
+    (by rw [hl]; exact rowMajor_lt _ _ hb) (by rw [hl]; exact rowMajor_lt _ _ hb') e
+  exact rowMajor_inj _ _ _ hb hb' h
+
+theorem rebuild_same (spawn : Nat → Nat → Nat) (k : Kind) (g1 g2 : Gen) (p1 p2 : Params)
+    (hg : g1 = g2) (hn : nblocks p1.numblocks = nblocks p2.numblocks) :
+    (construct spawn k g1 p1).1.seeds = (construct spawn k g2 p2).1.seeds := by
+  subst hg; simp [construct, hn]
 
 end Dask.Lemmas.Hist
